@@ -145,6 +145,35 @@ def b_hasattr(I, st, ca):
     return out
 
 
+def b_getattr(I, st, ca):
+    a = _plain(ca, 'getattr', 2, 3)
+    o, n = a[0], a[1]
+    if not isinstance(n, StrV):
+        raise Unsupported('getattr with non-constant name')
+    try:
+        res = I.getattr(st, o, n.s)
+    except Unsupported:
+        if len(a) == 3 and isinstance(o, FuncV):
+            # a modelled callable (the user function, a builtin): the attribute is some object or missing -> the default
+            out = []
+            for (s, has) in I.branch(st, fresh('has_attr_' + n.s, BOOL), None, None):
+                out.append((s, Opaque(fresh('attr_' + n.s, Val)) if has else a[2]))
+            return out
+        raise
+    out = []
+    for (s, r) in res:
+        if isinstance(r, Exc) and r.kind == 'AttributeError' and len(a) == 3:
+            out.append((s, a[2]))
+        else:
+            out.append((s, r))
+    return out
+
+
+def b_repr(I, st, ca):
+    _plain(ca, 'repr', 1)
+    return [(st, Opaque(fresh('repr', Val)))]
+
+
 def b_iter(I, st, ca):
     a = _plain(ca, 'iter', 1, 2)
     if len(a) == 1:
@@ -472,6 +501,8 @@ def make_builtins():
     b['isinstance'] = FuncV('isinstance', b_isinstance)
     b['type'] = FuncV('type', b_type)
     b['hasattr'] = FuncV('hasattr', b_hasattr)
+    b['getattr'] = FuncV('getattr', b_getattr)
+    b['repr'] = FuncV('repr', b_repr)
     b['iter'] = FuncV('iter', b_iter)
     b['list'] = FuncV('list', b_list)
     b['tuple'] = FuncV('tuple', b_tuple)
